@@ -296,7 +296,6 @@ func (rc *rootCtx) callRoots(c *ssa.Call) []root {
 	}
 }
 
-
 func (rc *rootCtx) moduleCallRoots(c *ssa.Call, fn *ssa.Function) []root {
 	var rets []root
 	retRootsMemo, retRootsBusy := rc.P.retRootsMemo, rc.P.retRootsBusy
@@ -500,7 +499,6 @@ func (P *Prog) fieldDerefClass(f *types.Var) (memClass, bool) {
 	}
 	return 0, false
 }
-
 
 // fieldOwner finds the named module struct type declaring field f.
 func (P *Prog) fieldOwner(f *types.Var) *types.Named {
@@ -932,6 +930,11 @@ func (P *Prog) buildModCG() *modCG {
 				for f := range ft.out {
 					add(f, ci.instr)
 				}
+				for _, m := range ft.invokes {
+					for _, impl := range methodsByName[m.Name()] {
+						add(impl, ci.instr)
+					}
+				}
 				if ft.unknown {
 					// value flow could not be followed: fall back to every address-taken module
 					// function of the same signature (sound, coarse)
@@ -1085,6 +1088,7 @@ type funcTracer struct {
 	out     map[*ssa.Function]bool
 	unknown bool
 	seenSl  map[ssa.Value]bool
+	invokes []*types.Func // interface methods reached through method-expression wrappers
 }
 
 func (ft *funcTracer) trace(v ssa.Value, depth int) {
@@ -1099,10 +1103,18 @@ func (ft *funcTracer) trace(v ssa.Value, depth int) {
 	P := ft.P
 	switch x := v.(type) {
 	case *ssa.Function:
+		if x.Synthetic != "" && x.Blocks != nil {
+			ft.throughWrapper(x)
+			return
+		}
 		if inModule(funcPkgPath(x)) {
 			ft.out[originOf(x)] = true
 		}
 	case *ssa.MakeClosure:
+		if g := x.Fn.(*ssa.Function); g.Synthetic != "" && g.Blocks != nil {
+			ft.throughWrapper(g)
+			return
+		}
 		ft.out[originOf(x.Fn.(*ssa.Function))] = true
 	case *ssa.Const:
 		// nil func
@@ -1205,6 +1217,26 @@ func isExportedAPI(fn *ssa.Function) bool {
 		return false
 	}
 	return fn.Object().Exported()
+}
+
+// throughWrapper: the synthetic wrapper of a method value or method expression (`v.process`,
+// `ZogSchema.process`, `(*T).m`) stands for the method it calls: a concrete method, or - for an interface
+// method - every implementation (recorded in ft.invokes and resolved by the call graph).
+func (ft *funcTracer) throughWrapper(w *ssa.Function) {
+	eachInstr(w, func(_ *ssa.BasicBlock, _ int, in ssa.Instruction) {
+		c, ok := in.(ssa.CallInstruction)
+		if !ok {
+			return
+		}
+		cc := c.Common()
+		if cc.IsInvoke() {
+			ft.invokes = append(ft.invokes, cc.Method)
+			return
+		}
+		if sc := cc.StaticCallee(); sc != nil && inModule(funcPkgPath(sc)) {
+			ft.out[originOf(sc)] = true
+		}
+	})
 }
 
 func (ft *funcTracer) traceField(f *types.Var, depth int) {
